@@ -160,7 +160,10 @@ func main() {
 								continue
 							}
 							wname := ast.NewIdent("simW")
-							fl.Body.List = append([]ast.Stmt{&ast.ExprStmt{X: &ast.CallExpr{Fun: wname}}}, fl.Body.List...)
+							fl.Body.List = append([]ast.Stmt{
+								&ast.DeferStmt{Call: &ast.CallExpr{Fun: &ast.SelectorExpr{X: ast.NewIdent("simhook"), Sel: ast.NewIdent("Recover")}}},
+								&ast.ExprStmt{X: &ast.CallExpr{Fun: wname}},
+							}, fl.Body.List...)
 							list[i] = &ast.BlockStmt{List: []ast.Stmt{
 								&ast.AssignStmt{Lhs: []ast.Expr{wname}, Tok: token.DEFINE, Rhs: []ast.Expr{&ast.CallExpr{
 									Fun: &ast.SelectorExpr{X: ast.NewIdent("simhook"), Sel: ast.NewIdent("Register")}}}},
